@@ -21,7 +21,8 @@ one() {
   git -C /repo worktree add -q --detach $wt HEAD || { echo "$n: worktree failed"; return; }
   (cd $wt && git apply $d/patch.diff) || { echo "$n: patch does not apply" >> /verif/seeded/RESULTS.md; git -C /repo worktree remove --force $wt; return; }
   mkdir -p $sv/evidence/replays
-  for x in specs extern props known_findings.txt audit; do ln -s /verif/$x $sv/$x; done
+  # committed state of /verif (helpers may be editing the working copy)
+  git -C /verif archive HEAD specs extern props known_findings.txt audit | tar -x -C $sv
   for p in $props; do
     [ -f props/$p.json ] || { echo "$n $p: property not claimed" >> /verif/seeded/RESULTS.md; continue; }
     out=$(/verif/bin/govc check -repo $wt -verif $sv -prop $p -tier quick 2>&1); rc=$?
